@@ -74,6 +74,11 @@ func parseSDL(root *Root, reader io.Reader) (types []Type, extends []*Extend, er
 			default:
 				err = fmt.Errorf("%w, '%s' is not a valid schema directive at %d:%d", ErrParse, token, p.line, p.col)
 			}
+		} else if err == nil && !p.eof {
+			// Not a token character. Without consuming it the loop would
+			// never end.
+			b, _ = p.readByte()
+			err = fmt.Errorf("%w, unexpected character '%c' at %d:%d", ErrParse, b, p.line, p.col)
 		}
 		if err != nil {
 			break
